@@ -311,7 +311,7 @@ def run(ck: Check):
     # ---- cases
     bnd = boundary_data()
     cases = [(t, d) for t in TYPES_ALL for d in bnd]
-    nrand = 12000 if ck.quick else 600000
+    nrand = 12000 if ck.quick else 150000
     for t in TYPES_MAIN:
         w = 3 if t in (T_DIM, T_FRAC) else (2 if t == T_FLOAT else 1)
         for _ in range(nrand * w):
